@@ -5155,6 +5155,7 @@ func ruleSumOverSet(c *Ctx) {
 // differently. A function literal in package native must not use a captured integer as index or bound of a slice
 // that is a field of a native cache.
 func ruleContinuationFreshIndex(c *Ctx) {
+	continuationFreshCache(c)
 	pk := c.P.Pkg("pkg/core/native")
 	if pk == nil {
 		c.Lost("continuation-fresh-index.anchor", "package native not found")
@@ -6469,4 +6470,153 @@ func takesOwnLock(c *Ctx, fn *types.Func) bool {
 		return true
 	})
 	return found
+}
+
+// ---------------------------------------------------------------------------
+// buffer-owns-bytes (C04, C13) - a Buffer is the one mutable byte item; instructions write into it in place. A
+// Buffer built over bytes that another item (or the storage layer behind System.Storage.Get) still holds lets a
+// script change that other value without any write permission, outside every rollback scope. In vm.execute the
+// argument of stackitem.NewBuffer is a fresh allocation: make(...), or a local all of whose definitions are
+// make(...) or a cloning call.
+func ruleBufferOwnsBytes(c *Ctx) {
+	fd := c.P.Func("pkg/vm", "VM", "execute")
+	if fd == nil {
+		c.Lost("buffer-owns-bytes.anchor", "VM.execute not found")
+		return
+	}
+	f := c.P.NewFuncCFG(fd)
+	info := f.Info
+	fresh := func(e ast.Expr) bool {
+		call, ok := ast.Unparen(e).(*ast.CallExpr)
+		if !ok {
+			return false
+		}
+		if id, ok := call.Fun.(*ast.Ident); ok && id.Name == "make" {
+			return true
+		}
+		switch f.calleeSym(call) {
+		case "bytes.Clone", "slices.Clone":
+			return true
+		}
+		return false
+	}
+	n := 0
+	seen := map[string]int{}
+	for _, s := range f.CallSites("pkg/vm/stackitem.NewBuffer") {
+		if len(s.call.Args) != 1 {
+			continue
+		}
+		n++
+		arm := enclosingOpcodeArm(c, fd, s.call.Pos())
+		seen[arm]++
+		key := fmt.Sprintf("buffer-owns-bytes.%s#%d", arm, seen[arm])
+		arg := ast.Unparen(s.call.Args[0])
+		ok := fresh(arg)
+		if id, isId := arg.(*ast.Ident); isId && !ok {
+			if v, isVar := info.ObjectOf(id).(*types.Var); isVar && !f.params[v] && len(f.defs[v]) > 0 {
+				ok = true
+				for _, d := range f.defs[v] {
+					for _, r := range d.rhs {
+						if !fresh(r) {
+							ok = false
+						}
+					}
+				}
+			}
+		}
+		if ok {
+			c.OK(key, c.P.Pos(s.call.Pos()), "the buffer is built over a fresh allocation")
+		} else {
+			c.Fail(key, c.P.Pos(s.call.Pos()), fmt.Sprintf("%s pushes a Buffer built over %s, bytes that are not a fresh allocation of the instruction: the buffer is writable in place, so the script changes the item (or the stored value behind System.Storage.Get) those bytes belong to - without WriteStates and outside every rollback scope", arm, trunc(types.ExprString(arg), 60)))
+		}
+	}
+	c.Floor("buffers pushed by instructions", n, 5)
+}
+
+// continuationFreshCache (continuation-fresh-index, C01/C04): a native cache object is valid for the DAO layer it was
+// taken from; while a contract callout runs, nested layers are created and committed and the cache object of the
+// layer is *replaced*. A continuation (a function literal handed to a ...Deferrable call, directly or through a
+// local) therefore has to fetch the cache again; a cache pointer captured from the enclosing function is an orphan
+// by the time the continuation runs - what it writes is lost, while the storage record is kept.
+func continuationFreshCache(c *Ctx) {
+	pk := c.P.Pkg("pkg/core/native")
+	if pk == nil {
+		return
+	}
+	info := pk.TypesInfo
+	isCachePtr := func(t types.Type) bool {
+		p, ok := t.(*types.Pointer)
+		if !ok {
+			return false
+		}
+		nt, ok := p.Elem().(*types.Named)
+		return ok && nt.Obj().Pkg() == pk.Types && strings.HasSuffix(nt.Obj().Name(), "Cache")
+	}
+	n := 0
+	for _, fd := range c.P.AllFuncDecls() {
+		if fd.Pkg != pk || fd.Decl.Body == nil {
+			continue
+		}
+		// literals handed to a ...Deferrable callee: directly, or through a local bound to the literal
+		litOf := map[types.Object]*ast.FuncLit{}
+		ast.Inspect(fd.Decl.Body, func(x ast.Node) bool {
+			if as, ok := x.(*ast.AssignStmt); ok && len(as.Lhs) == 1 && len(as.Rhs) == 1 {
+				if fl, ok := as.Rhs[0].(*ast.FuncLit); ok {
+					if id, ok := as.Lhs[0].(*ast.Ident); ok {
+						litOf[info.ObjectOf(id)] = fl
+					}
+				}
+			}
+			return true
+		})
+		var conts []*ast.FuncLit
+		ast.Inspect(fd.Decl.Body, func(x ast.Node) bool {
+			call, ok := x.(*ast.CallExpr)
+			if !ok {
+				return true
+			}
+			cf := calleeFunc(info, call)
+			if cf == nil || !strings.Contains(cf.Name(), "Deferrable") {
+				return true
+			}
+			for _, a := range call.Args {
+				switch y := ast.Unparen(a).(type) {
+				case *ast.FuncLit:
+					conts = append(conts, y)
+				case *ast.Ident:
+					if fl := litOf[info.ObjectOf(y)]; fl != nil {
+						conts = append(conts, fl)
+					}
+				}
+			}
+			return true
+		})
+		k := 0
+		for _, fl := range conts {
+			n++
+			bad := ""
+			ast.Inspect(fl.Body, func(x ast.Node) bool {
+				id, ok := x.(*ast.Ident)
+				if !ok {
+					return true
+				}
+				v, ok := info.ObjectOf(id).(*types.Var)
+				if !ok || v.IsField() || !isCachePtr(v.Type()) {
+					return true
+				}
+				if v.Pos() < fl.Pos() && v.Pos() > fd.Decl.Pos() {
+					bad = id.Name
+				}
+				return true
+			})
+			k++
+			key := fmt.Sprintf("continuation-fresh-cache.%s#%d", FuncKey(fd.Obj), k)
+			if bad == "" {
+				c.OK(key, c.P.Pos(fl.Pos()), "the continuation takes the native cache from the DAO itself")
+			} else {
+				c.Fail(key, c.P.Pos(fl.Pos()), fmt.Sprintf("a continuation of %s (it runs after a contract callout) uses the native cache pointer %s captured from the enclosing function: a nested layer committed during the callout replaces the layer's cache object, so the continuation updates an orphan - the storage record is written, the live cache never learns of it until a restart", FuncKey(fd.Obj), bad))
+			}
+		}
+	}
+	c.Floor("continuations handed to deferrable natives", n, 5)
 }
